@@ -4,7 +4,7 @@ chk("C14", "exploration",
     "namespace / compound routes, judged by an independently written prefix-alias splitter. "
     "The space is finite and fully covered, so within the name inventory this is a complete "
     "decision, not a sample. Two histories on top: doubly-prefixed strings after the inner name was resolved, and every listed "
-    "spelling re-resolved in a custom registry after all canonical symbols were re-scaled (alias == canonical x prefix in that registry).",
+    "spelling re-resolved in a custom registry after all canonical symbols were re-scaled (alias == canonical x prefix in that registry). 175 user-defined prefixable symbols with spellings the prefix splitter treats specially ('<unit>cm' comoving names and similar): their prefixed forms are prefix x value and every documented name keeps its meaning afterwards.",
     "Trusted: the hand-written alias/prefix table in vf/oracle/table.py and the name inventory "
     "read from unyt as data; scale accuracy of table rows themselves is C02's subject.",
     "exhaustive enumeration against an independent name resolver", "DESIGN.md §3 C14")
@@ -14,7 +14,7 @@ chk("C15", "exploration",
     "magnitude and compared with the canonical one (1e-12), Gaussian guises via a hand-written CGS/SI pairing, "
     "values against hand-written CODATA/IAU references within fixed tolerance classes. Histories: user-defined unit systems "
     "with offset temperature bases, registries of each system with re-scaled base units (all guises still one quantity) and a "
-    "plain registry built afterwards.",
+    "plain registry built afterwards. The documented alias inventory is complete and every alias is judged by value in both namespaces.",
     "Trusted: reference values/relations in vf/oracle/table.py (written from memory of CODATA 2018 / IAU 2015; "
     "class tolerances 1e-7..1e-3); alias inventory read from unyt as data plus a golden alias->constant list.",
     "exhaustive enumeration; cross-guise differential + algebraic relations", "DESIGN.md §3 C15")
@@ -55,7 +55,7 @@ chk("C08", "exploration",
     "SI-prefixed forms of the prefixable ones: 24 units quick, 69 thorough) x four conversion routes x (+,-) in operator, "
     "ufunc, in-place and out= form x comparisons, with fixed and Hypothesis-drawn readings held as float64, int64 and float32; per unit the diff/ediff1d/ptp "
     "helpers and ~60 multiplicative/power/root forms that must refuse. Every returned value is compared with an exact-rational "
-    "affine model in kelvin, in the scale of the unit the result is labelled with.",
+    "affine model in kelvin, in the scale of the unit the result is labelled with. np.gradient is one of the difference forms.",
     "Trusted: the affine model (s, z) written from the statement; forms the statement does not list (point+point, "
     "difference-point, point-vs-difference comparisons) are counted but not judged; a refusal is always accepted for additive forms.",
     "exhaustive pair-table enumeration + Hypothesis readings vs exact affine model", "DESIGN.md §3 C08")
@@ -67,7 +67,7 @@ chk("C03", "exploration",
     "in_base / in_mks / in_cgs and their in-place twins, with targets spelled as strings and as Unit objects, in the default registry, in a registry that re-scales 21 "
     "default symbols, across registries and after a registry served other definitions of the same names; identity, inverse and composition laws, route agreement in numbers and "
     "resulting unit, exact rational expectation for generated affine parameters; the temperature pair table is enumerated "
-    "exhaustively. The symbolic 'for all real scale/offset' clause is searched, not proved.",
+    "exhaustively. The symbolic 'for all real scale/offset' clause is searched, not proved. Chains on returned objects also along in_base / in_mks / in_cgs, starting from quantities already in base units.",
     "Trusted: nothing but the laws themselves and exact Fraction arithmetic; tolerance 64 eps x (|value| + zero-point magnitudes / "
     "target scale). 32-bit data restricted to scale ranges that cannot overflow float32.",
     "Hypothesis law/metamorphic testing (round trip, composition, route differential) + exhaustive temperature table", "DESIGN.md §3 C03")
@@ -91,7 +91,7 @@ chk("C17", "exploration",
     "complex, result dtype equality, copy/in-place agreement in dtype and values, RuntimeWarning iff a value beyond the documented "
     "threshold loses precision; with that warning raised as an error the in-place target is untouched or finished. Side grids: temperature "
     "difference + point of mixed widths, 11 equivalence routes x 8 integer dtypes x 5 forms against the float64-input result, float16/float32 "
-    "width kept for units whose scale is stored as a NumPy scalar.",
+    "width kept for units whose scale is stored as a NumPy scalar. Lists / tuples of integer-typed quantities in mixed units as constructor argument and ufunc operand.",
     "Trusted: exact decimal definitions of the 14 unit ratios used; binary ufuncs may return a wider float and are judged at the "
     "width of the rescaled operand; 8-bit operands may refuse in place; overflow to inf of the prescribed type is allowed.",
     "dtype x route grid enumeration + Hypothesis values vs exact rational conversion", "DESIGN.md §3 C17")
@@ -101,7 +101,7 @@ chk("C06", "exploration",
     "copies of Hypothesis-drawn data and on the same data with units attached (one unit per role: no rescaling), for float64, "
     "int64 and complex128 data; either the unyt call raises or structure, shapes, dtype kinds and values agree bit for bit "
     "(<= 8 ulp classed as re-associated rounding), including mutated targets and out= buffers. Data include exact ties, zeros "
-    "and boundary arguments (t, tz roles), tuples of axes, odd-length axes, nested per-axis fill values, bare-first comparisons at the tolerance boundary.",
+    "and boundary arguments (t, tz roles), tuples of axes, odd-length axes, nested per-axis fill values, bare-first comparisons at the tolerance boundary. Units are attached under four unit plans (SI, angles, an offset scale, a logarithmic unit), one per data set; the catalogue now holds ~2450 templates including positional spellings derived from keyword templates.",
     "Trusted: NumPy on the bare data. A raise by the unyt call is accepted (the statement allows it; counted per function). "
     "Empty arrays and string-producing functions are not compared.",
     "catalogue enumeration x Hypothesis data, differential vs NumPy on bare arrays", "DESIGN.md §3 C06")
@@ -113,7 +113,7 @@ chk("C07", "exploration",
     "assignment; a role A2 holds the same dimension in another unit than role A (mixed-unit arguments: bins, pad values, "
     "fill values, to_begin/to_end, search keys); templates of the selection/reshaping/sorting/rounding/interpolation/location-spread class must return unyt "
     "objects of the input's dimension and every unit-carrying result must be nameable in its own registry. Includes products "
-    "whose units cancel across different scales. No per-function expected unit is used.",
+    "whose units cancel across different scales. No per-function expected unit is used. Positional spellings of keyword arguments are derived for every template; bin edges in another unit are given to histogram, histogram2d, histogramdd and histogram_bin_edges, also with density / weights.",
     "Trusted: SI scale/dimension of *result* units read from the library (C02/C05 judge those). Rounding family excluded from "
     "the numeric clause; LAPACK/FFT/log-based templates judged at rel 1e-9, and a failing tolerant comparison is not judged when the "
     "result is unstable under 1e-12 noise in the data (cancellation, near-degenerate eigenvectors); explicit unit strippers and unit-keeping constant "
@@ -137,7 +137,7 @@ chk("C18", "fault_enumeration",
     "NumPy catalogue on strided-view operands (bytes of the surrounding buffer, dtype, shape, unit expr/scale/offset/dimension/"
     "str/repr before vs after) and with in-place/copy twin agreement, so state left by a failed call is exposed by what follows. After every "
     "copying call the result is overwritten in place and the inputs are compared again (a 'new object' may not alias its inputs); Unit objects "
-    "of a second registry and tolerance quantities passed as arguments are inputs too.",
+    "of a second registry and tolerance quantities passed as arguments are inputs too. out= targets that are fresh views of an operand's memory (x[:], x.view(), shifted windows, a column named twice) with the other operand in another unit, and refused calls with such targets.",
     "Trusted: snapshots taken through NumPy (tobytes) and Unit attributes. A failed in-place call may retype an integer target to "
     "float with numbers and unit intact (the statement promises numbers and unit). Whether a faulty call is refused at all is "
     "C01/C08's subject.",
@@ -161,7 +161,7 @@ chk("C10", "exploration",
     "case (half of them under the name of a registered system, which must keep answering). Judged: atoms of the result inside what the system "
     "was constructed with (own record), dimension preserved or documented EM counterpart, round trip, get_base_equivalent / "
     "convert_to_base / in_cgs / in_mks agreement, idempotence, independence of request history, result stays in its registry, "
-    "IllDefinedUnitSystem for inconsistent bases.",
+    "IllDefinedUnitSystem for inconsistent bases. Quantities in a private registry that re-scales the symbols the built-in systems are made of: in_base agrees with conversion by name in that registry and stays in it.",
     "Trusted: hand-copied record of the built-in systems' definitions and the EM pairing table; UnitsNotReducible is always "
     "accepted; scales beyond 1e+-60 excluded.",
     "exhaustive (system, unit) enumeration + Hypothesis-generated unit systems with construction-record oracle", "DESIGN.md §3 C10")
@@ -175,7 +175,7 @@ chk("C19", "exploration",
     "operands. Decorators: exhaustive over every dimension in unyt.dimensions x SI/CGS/imperial/galactic spellings x 17 accepts "
     "usages and 4 returns usages with an instrumented wrapped function (call counter, identity of the returned object), plus "
     "call histories (valid, swapped slots, valid ...) on one decorated function whose slots differ in dimension, and signatures "
-    "with *args / **kwargs catch-alls.",
+    "with *args / **kwargs catch-alls. Same-spelled but different units (symbol re-scaled or re-added between two constructions in one registry, two registries) through all seven helpers in both argument orders.",
     "Trusted: the SI scale of each of the 25 unit spellings is read from the library (cross-checked at 1e-5 against the "
     "independent table) so that the helpers' logic, not the table's accuracy, is judged. NumPy spellings only with atol=0; "
     "dimensionless operands excluded from the NumPy spellings (they adopt the other operand's unit by the library's tested contract).",
@@ -206,7 +206,7 @@ chk("C13", "exploration",
     "their source when made, define_unit on private copies of the default registry). After every step a digest of every registry "
     "(20 probe strings, arithmetic / conversion / base-reduction results, registry identity of results) must be unchanged for "
     "every registry not acted on, and an import-time snapshot of the default registry, default_unit_symbol_lut, exported units and "
-    "constants and a conversion panel must be intact.",
+    "constants and a conversion panel must be intact. A deterministic grid of code unit systems (UnitSystem(reg.unit_system_id, ..., registry=reg), in_base('code')) for a registry and its fork: answers through one registry use its own definitions, stay in it and do not move when the other is edited.",
     "Trusted: the digest as the definition of 'what a registry resolves'. Pure observations (unit construction, arithmetic, "
     "namespaces, round trips) may not change anything observable even in the registry they go through. add/define_unit on the "
     "default registry are legitimate writers and are not exercised.",
@@ -220,7 +220,7 @@ chk("C20", "exploration",
     "non-vocabulary Python constructs that must be refused (incl. every non-vocabulary entry found in the parser's evaluation "
     "namespace at run time); units with a numeric coefficient raised to fractional powers; ~75 strings that raise during evaluation. Every parse runs under an "
     "audit hook with canaries (file creation, builtins). thorough adds a 10-minute coverage-guided atheris/libFuzzer campaign on "
-    "Unit(str) with the same oracle inside the target.",
+    "Unit(str) with the same oracle inside the target. 19 groups of equivalent spellings are read in a registry before and after their symbols were re-scaled; the printed form re-reads to the same unit there.",
     "Termination is not decided (liveness): numeric power towers are capped in the generators and a watchdog kills wedged workers; "
     "a timeout is inconclusive. Audit events of the parser's own activity (compile/exec/getattr, imports of sympy/stdlib parsing "
     "modules, source lookups for tracebacks) are allowed.",
@@ -236,7 +236,7 @@ chk("C11", "exploration",
     "exception class) covering angle-aware trig, temperature and logarithmic guards, unit-system conversion incl. the registry's "
     "own default, conversion to custom units, arithmetic with the original, reductions. Histories: the unit outlived a registry "
     "edit before an object copy; the original registry is edited after the restore (a restored object with its own table is a "
-    "snapshot, and units parsed against its registry belong to it).",
+    "snapshot, and units parsed against its registry belong to it). A shallow copy shares its table with the original: after an edit through either handle, by-name operations through both give the same outcome. Single / half precision follow-up results are compared within 2 ulp of that type.",
     "HDF5 not exercised (h5py absent); pickle protocols 0/1 are refused loudly by SymPy itself and are not exercised; savetxt with "
     "a custom registry is not exercised (the text format cannot carry a registry). Derived results are compared at rel 1e-13.",
     "Hypothesis object x route x follow-up program generation; behavioural differential original vs restored", "DESIGN.md §3 C11")
